@@ -54,6 +54,11 @@ def refusing_calls(rng, sh):
                 out.append(('analog:stored-frame-has-fewer-subframes', ['frame 0 - ' + short.text(), 'snap 0', 'analog 0 ' + hx(b'cfresh9')]))
         out.append(('analogcol:none', ['analogcol 0 0']))
         if sh.pts: out.append(('point:dup', ['point 0 ' + hx(sh.pts[-1] + b' ')]))
+    long = b'n' * 256
+    out.append(('point:name-256', ['point 0 ' + hx(long)]))
+    out.append(('analog:name-256', ['analog 0 ' + hx(b'c' * 300)]))
+    if nf == 0 and not sh.pts: out.append(('frame:name-256-undeclared', ['P.new x52415445 x', 'P.set F 0 1 42c80000', 'param 0 x504f494e54', 'frame 0 - 1 %s 3f800000 3f800000 3f800000 00000000 0' % hx(long)]))
+    if nf: out.append(('pointcol:name-256', ['pointcol 0 %d %s' % (nf, ' '.join(rand_lit(rng, [long], [], 0).text() for _ in range(nf)))]))
     out.append(('param:unnamed', ['P.new x x', 'P.set I 0 1 5', 'param 0 ' + hx(b'POINT')]))
     out.append(('param:untyped-newgroup', ['P.new %s x' % hx(b'Q'), 'param 0 ' + hx(b'NEWGROUP')]))
     out.append(('param:untyped-oldgroup', ['P.new %s x' % hx(b'Q'), 'param 0 ' + hx(b'POINT')]))
